@@ -61,9 +61,17 @@ fn apply(base: &LeafA, fds: &[FieldDef], alts: &[Vec<Vec<u64>>], edits: &[(usize
         let val = &alts[fi][ai];
         for k in 0..fd.len {
             a.v[fd.off + k] = val[k];
+            if let Some(t) = fd.twin {
+                a.v[t + k] = val[k];
+            }
         }
         if derived_offsets().contains(&fd.off) {
             keep.push(fd.off);
+        }
+        if let Some(t) = fd.twin {
+            if derived_offsets().contains(&t) {
+                keep.push(t);
+            }
         }
     }
     if coherent {
